@@ -155,7 +155,7 @@ WitnessFails(e) ==
 (* today must not fail with any other exception; the probes of             *)
 (* unimplemented selections may throw anything but never a wrong verdict.  *)
 (***************************************************************************)
-BddImplemented == {"bu_up", "bu_dr_sim", "td_dr", "td_dro", "td_dr_sim", "td_dro_sim"}
+BddImplemented == {"bu_up", "bu_dr_sim", "bu_dr_sim_att", "td_dr", "td_dro", "td_dr_sim", "td_dro_sim"}
 BddInclFails(e) ==
   LET A == ToAut(e.A)  B == ToAut(e.B)  exp == TF(Incl(A, B))
   IN {k \in DOMAIN e.res.v :
